@@ -149,6 +149,16 @@ struct SockHooks {
 inline SockHooks& sockHooks() { static SockHooks h; return h; }
 // one-shot bits OR-ed into the revents the poller reports for a descriptor (only when it is reported at all)
 inline std::map<int, int>& reventsOr() { static std::map<int, int> m; return m; }
+// number of coming poll()/epoll_wait() calls that fail with EINTR instead of being made (0 unless a driver sets it);
+// an interrupted call is recorded as an empty result plus the oracle-only line `# poll EINTR`
+inline int& pollEintr() { static int n = 0; return n; }
+inline bool takePollEintr() {
+  if (pollEintr() <= 0) return false;
+  --pollEintr();
+  out("# poll EINTR");
+  if (pollRecorder()) { std::vector<std::pair<int, int> > v; pollRecorder()(v); }
+  return true;
+}
 
 // make a virtual timer descriptor readable now
 inline void fireTimerFd(int fd) {
@@ -256,6 +266,8 @@ ssize_t write(int fd, const void* buf, size_t count) {
     return -1;
   }
   size_t want = (r.kind == vi::Res::FULL) ? count : (static_cast<size_t>(r.n) < count ? static_cast<size_t>(r.n) : count);
+  if (r.kind == vi::Res::COUNT && r.n < 0)   // relative: all but -n bytes of what was asked for
+    want = count > static_cast<size_t>(-r.n) ? count - static_cast<size_t>(-r.n) : 0;
   size_t done = 0;
   int err = 0;
   while (done < want) {
@@ -330,6 +342,7 @@ int close(int fd) {
 
 int epoll_wait(int epfd, struct epoll_event* events, int maxevents, int timeout) {
   VI_REAL(int, epoll_wait, int, struct epoll_event*, int, int);
+  if (vi::takePollEintr()) { errno = EINTR; return -1; }
   int n = vi::epollHook() ? vi::epollHook()(epfd, events, maxevents, timeout, real_epoll_wait)
                           : real_epoll_wait(epfd, events, maxevents, timeout);
   if (n > 0 && !vi::reventsOr().empty() && vi::ptrToFd()) {
@@ -351,6 +364,7 @@ int epoll_wait(int epfd, struct epoll_event* events, int maxevents, int timeout)
 
 int poll(struct pollfd* fds, nfds_t nfds, int timeout) {
   VI_REAL(int, poll, struct pollfd*, nfds_t, int);
+  if (vi::takePollEintr()) { errno = EINTR; return -1; }
   int n = vi::pollHook() ? vi::pollHook()(fds, nfds, timeout, real_poll) : real_poll(fds, nfds, timeout);
   if (n > 0 && !vi::reventsOr().empty()) {
     for (nfds_t i = 0; i < nfds; ++i) {
